@@ -1,3 +1,4 @@
+from functools import partial
 from typing import Callable, Iterable, Sequence, Tuple
 
 from tqdm.auto import tqdm
@@ -9,6 +10,15 @@ from ..exceptions import DependencyError
 from ..utils import AntiSet, extract_signature, node_to_dict
 from .base import EdgesBag
 from .dynamic import DynamicConnectLayer
+
+
+# module-level, so that the compiled functions can be pickled
+def _among(ids, id):
+    return id in ids
+
+
+def _not_among(ids, id):
+    return id not in ids
 
 
 class Filter(DynamicConnectLayer):
@@ -36,7 +46,7 @@ class Filter(DynamicConnectLayer):
         assert not isinstance(ids, str)
         ids = tuple(sorted(set(ids)))
         assert all(isinstance(i, str) for i in ids)
-        return cls(lambda id: id not in ids, verbose=verbose)
+        return cls(partial(_not_among, ids), verbose=verbose)
 
     @classmethod
     def keep(cls, ids: Iterable[str], verbose: bool = False):
@@ -44,7 +54,7 @@ class Filter(DynamicConnectLayer):
         assert not isinstance(ids, str)
         ids = tuple(sorted(set(ids)))
         assert all(isinstance(i, str) for i in ids)
-        return cls(lambda id: id in ids, verbose=verbose)
+        return cls(partial(_among, ids), verbose=verbose)
 
     def __repr__(self):
         args = ', '.join(self._names)
